@@ -802,6 +802,7 @@ func main() {
 	c.Rule = "a user edits one Composition through a history over 2-4 distinct contents (content = labels + annotations + spec; fixed shapes: A-B-A, A-B-C-A, repeated reverts, label-only, annotation-only, every spec part, Resources mode, edit without reconcile, owner references stripped in place / by delete-and-recreate (new Composition uid) before a reconcile, before an edit to new content, before a revert, a revision controlled by a foreign uid with the same composition-name label appearing mid-history / first / staying; plus seeded random histories), each step followed by reconciles of the real revision controller until one makes no effective write (bound 6). For every reconcile of the fault-free run EVERY API-call index x 6 outcomes (conflict, 500, timeout, crash-before, crash-after, applied-but-504), then fault-free retries and the rest of the history. Revisions are tied to contents by the content the Composition had in the store when the controller created them (harness fingerprint, not the hash label). Post-write hook: O2 spec-minus-revision immutable by name, O3 number never decreases, O1 at most one revision per content and faithful at creation, Manual XR's reference never moves, other Composition's revisions untouched. After each completed (nil error, no requeue) fault-free reconcile: O1 exactly one revision equal to the current content, O4 it is controlled and strictly highest among controlled ones. XR side: the real APIRevisionFetcher for a Manual, an Automatic and two Automatic+selector XRs after every step (with every call of the fetch faulted x 6 in the fault-free run of the fixed and every third random history) and at the end of every faulted execution (O5; ties in the highest number accept any of the tied). distinct = (history, reconcile, call index, outcome); non-trivial = the fault was reached and the history contains a revert or the fault fell at/after an effective write of its reconcile. Violation keys carry the history class (plain | owner-refs-stripped | foreign-revision). Not flagged: failing reconciles while a foreign-controlled revision exists (the controller refuses to adopt it), metadata-only edits of revisions, non-quiescence (counted), first selection of a Manual XR."
 	c.Rule += " XR xr-switch: the user edits its update policy and revision selector before every XR point (rotation over Automatic / Automatic+selector / Manual); the reference must follow the edited spec, also to a lower-numbered revision."
 	c.Rule += " " + "Histories with a finalizer-held deleted highest revision and its release; the real revision-created event handler is held against the real fetcher (every XR that would move must have been enqueued)."
+	c.Rule += " " + "One long-lived fetcher per execution; cache-reader List semantics for the revision controller; a 125-build history."
 	c.Assumptions = []string{
 		"sim implements the apiserver rules listed in DESIGN.md 2.2; user actions and reconciles do not overlap in time (the revision controller is a single worker per Composition)",
 		"revisions are never deleted except by the harness's restore / garbage collection of the foreign revision",
